@@ -55,6 +55,13 @@ def cases(tier, seed):
                         add('logdet', D=D, n=n, pivot=piv, rep=rep)
             for n in (1, 2, 3):
                 add('expm', D=D, n=n, rep=rep)
+        # many directions (a Jacobian of a function of 40 variables is one sweep with P = 40)
+        for Pw in (33, 40, 70):
+            for kinds in ('UU', 'UA', 'AU'):
+                add('dot', D=2, ra=2, rb=1, kinds=kinds, rep=rep, P=Pw); add('dot', D=3, ra=1, rb=2, kinds=kinds, rep=rep, P=Pw)
+                add('outer', D=2, kinds=kinds, equal=False, rep=rep, P=Pw)
+                add('solve', D=2, n=3, pivot=True, kinds=kinds, k=1, rep=rep, P=Pw)
+            add('inv', D=2, n=3, pivot=False, rep=rep, P=Pw); add('det', D=3, n=3, pivot=True, rep=rep, P=Pw); add('trace', D=2, n=3, rep=rep, P=Pw)
     return out
 
 
@@ -170,6 +177,16 @@ def _outer(ctx, p, rng):
     D, P, kinds = p['D'], p['P'], p['kinds']
     n = int(rng.integers(1, 5)); m = n if p['equal'] else n + int(rng.integers(1, 3))
     a = rng.normal(size=(D, P, n)); b = rng.normal(size=(D, P, m))
+    if D > 2:
+        # coefficient patterns: first-order coefficients vanishing in some or all directions, an interior coefficient identically zero
+        pat = int(rng.integers(5))
+        for arr in (a, b):
+            if pat == 1:
+                arr[1] = 0
+            elif pat == 2:
+                arr[1, int(rng.integers(P))] = 0
+            elif pat == 3:
+                arr[1:-1] = 0
     if kinds == 'UA':
         b[1:] = 0; b[0, 1:] = b[0, 0]
     if kinds == 'AU':
